@@ -29,6 +29,10 @@ class TemplateMismatch(Exception):
 TEMPLATES = {
     # mirror module name -> (file in the macro crate, cfg attribute line that selects the generator fn)
     'tmpl_autocomplete': ('command/autocomplete.rs', '#[cfg(feature = "autocomplete")]'),
+    # code emitted by #[derive(CommandGroup)] for Autocomplete: one call per visible group member, in order.
+    # The repetition `#(#groups)*` is instantiated for TWO members of arbitrary (generic) type -- rule T5; the emitted
+    # code for N members is the same statement N times.
+    'tmpl_group_autocomplete': ('group/mod.rs', '#[cfg(feature = "autocomplete")]\nfn derive_autocomplete'),
 }
 
 
@@ -41,7 +45,77 @@ def source_path(name, repo_src):
     return os.path.join(macros_dir(repo_src), TEMPLATES[name][0])
 
 
+def _quote_bodies(raw, start, rel):
+    """texts of the quote! { .. } literals that follow offset `start`, with the line number of each"""
+    toks = rlex.lex(raw)
+    pairs = rlex.match_brackets(toks)
+    res = []
+    pos = start
+    while True:
+        q = raw.find('quote! {', pos)
+        if q < 0:
+            break
+        open_idx = None
+        for i, t in enumerate(toks):
+            if t[0] == 'p' and t[1] == '{' and t[2] == q + len('quote! '):
+                open_idx = i
+                break
+        if open_idx is None:
+            raise TemplateMismatch('%s: cannot locate the brace of quote!' % rel)
+        close = pairs[open_idx]
+        res.append((raw[toks[open_idx][3]:toks[close][2]], raw.count('\n', 0, toks[open_idx][3]) + 1, toks[close][3]))
+        pos = toks[close][3]
+    return res
+
+
+def _dedent(body):
+    lines = body.split('\n')
+    while lines and lines[0].strip() == '':
+        lines.pop(0)
+    while lines and lines[-1].strip() == '':
+        lines.pop()
+    ind = min(len(l) - len(l.lstrip()) for l in lines if l.strip())
+    return '\n'.join(l[ind:] if l.strip() else '' for l in lines) + '\n'
+
+
+def extract_group(name, repo_src, log):
+    rel, sel = TEMPLATES[name]
+    path = source_path(name, repo_src)
+    raw = open(path).read()
+    k = raw.find(sel)
+    if k < 0:
+        raise TemplateMismatch('%s: selector not found' % rel)
+    end = raw.find('\n}\n', k)
+    bodies = [b for b in _quote_bodies(raw, k, rel) if b[2] <= end + 3]
+    if len(bodies) != 2:
+        raise TemplateMismatch('%s: expected the per-member and the impl quote! literals, found %d' % (rel, len(bodies)))
+    inner, outer = _dedent(bodies[0][0]).strip(), _dedent(bodies[1][0])
+    first_line = bodies[1][1]
+    if inner.count('#ty') != 1 or outer.count('#(#groups)*') != 1:
+        raise TemplateMismatch('%s: unexpected holes in the group template' % rel)
+    ind = re.search(r'^([ \t]*)#\(#groups\)\*', outer, re.M).group(1)
+    calls = '\n'.join(ind + inner.replace('#ty', g) for g in ('G1', 'G2'))
+    text = re.sub(r'^[ \t]*#\(#groups\)\*', lambda m: calls, outer, flags=re.M)
+    log.append({'rule': 'T5', 'file': 'embedded-cli-macros/src/' + rel, 'line': first_line,
+                'what': 'repetition #(#groups)* instantiated for two members of generic type G1, G2 (per-member template: %s)' % inner[:120]})
+    n = text.count('#named_lifetime')
+    if n != 2 or text.count('#ident') != 1:
+        raise TemplateMismatch('%s: unexpected impl header in the group template' % rel)
+    text = re.sub(r'impl #named_lifetime ', 'impl<G1: crate::service::Autocomplete, G2: crate::service::Autocomplete> ', text)
+    text = re.sub(r'#ident #named_lifetime', 'DerivedGroup<G1, G2>', text)
+    log.append({'rule': 'T1/T2', 'file': 'embedded-cli-macros/src/' + rel, 'line': first_line,
+                'what': 'target type named DerivedGroup<G1, G2>, generic over the two member types'})
+    text = re.sub(r'\b_cli::', 'crate::', text)
+    log.append({'rule': 'T3', 'file': 'embedded-cli-macros/src/' + rel, 'line': first_line, 'what': 'macro alias of the crate'})
+    if '#' in re.sub(r'#\[[^\]]*\]', '', text):
+        raise TemplateMismatch('%s: template has interpolations the extraction does not know' % rel)
+    text = 'pub struct DerivedGroup<G1, G2> {\n    pub g1: G1,\n    pub g2: G2,\n}\n\n' + text
+    return raw, text
+
+
 def extract(name, repo_src, log):
+    if name == 'tmpl_group_autocomplete':
+        return extract_group(name, repo_src, log)
     rel, sel = TEMPLATES[name]
     path = source_path(name, repo_src)
     raw = open(path).read()
